@@ -42,7 +42,13 @@ class World:
         self.clock = 1_500_000_000
         self.dir_mtime = {}
         self.link_sub = rng.random() < 0.5
-        self.k_model, self.k_lib, self.k_extra = 2, 3, None
+        self.k_model, self.k_lib, self.k_extra, self.k_shadow = 2, 3, None, None
+        # sometimes the model lives in a package: a file added later to the model folder can then put a class of
+        # the same name as the library class into that package, without touching any existing file
+        self.pkg = mode == "cache" and rng.random() < 0.35
+        self.name = "P.M" if self.pkg else "M"
+        if self.pkg:
+            ctx.cover("model-in-a-package")
         self.opts = {"library_folders": [self.ldir]}
         if rng.random() < 0.5:
             self.opts["detect_aliases"] = True
@@ -77,11 +83,26 @@ class World:
         extra = "  Extra e;\n" if self.k_extra is not None else ""
         eq_extra = "  w = e.q;\n" if self.k_extra is not None else "  w = 1;\n"
         # every option that can be flipped has something to act on, so that a stale cache is observable
-        return ("model M\n  Real x(start = %d);\n  Real y(max = 2 * p + 1);\n  Real w;\n  parameter Real p = %d;\n"
+        return self.wrap("model M\n  Real x(start = %d);\n  Real y(max = 2 * p + 1);\n  Real w;\n  parameter Real p = %d;\n"
                 "  parameter Real q = 2 * p;\n  constant Real cc = 3;\n  constant Real c2 = 6;\n"
-                "  Real al;\n  Real da;\n  Real kc;\n  Real k2;\n  Real fs;\n  Real v[2];\n  Real _el;\n  LibComp c;\n%s"
+                "  Real al;\n  Real da;\n  Real kc;\n  Real k2;\n  Real fs;\n  Real v[2];\n  Real _el;\n  Real _fx;\n  LibComp c;\n%s"
                 "equation\n  der(x) = -%d * x + p + q;\n  y = c.z + x + cc + c2;\n  al = y;\n  da = der(x);\n  kc = 5;\n"
-                "  0 = 2 * (fs - x);\n  v = {x, y};\n  _el = 3 * x + 1;\n  k2 = kc + 1;\n%send M;\n" % (self.k_model, self.k_model + 1, extra, self.k_model, eq_extra))
+                "  0 = 2 * (fs - x);\n  v = {x, y};\n  _el = 3 * x + 1;\n  _fx = 2 * x + 3;\n  k2 = kc + 1;\n%send M;\n" % (self.k_model, self.k_model + 1, extra, self.k_model, eq_extra))
+
+    def wrap(self, text):
+        return "package P\n%send P;\n" % text if self.pkg else text
+
+    def write_shadow(self):
+        p = os.path.join(self.mdir, "PLibComp.mo")
+        new = not os.path.exists(p)
+        with open(p, "w") as f:
+            f.write("within P;\nmodel LibComp\n  Real z;\nequation\n  z = %d * time + 1;\nend LibComp;\n" % self.k_shadow)
+        self.touch(p, new)
+
+    def copy_sources(self, dest):
+        for f in os.listdir(self.mdir):
+            if f.endswith(".mo"):
+                shutil.copy(os.path.join(self.mdir, f), os.path.join(dest, f))
 
     def write_model(self):
         p = os.path.join(self.mdir, "M.mo")
@@ -143,6 +164,11 @@ class World:
             self.k_lib += r.randint(1, 3)
             self.write_lib()
             self.ops.append(["edit-library-file", self.k_lib])
+        elif k < 0.72 and self.pkg and r.random() < 0.5:
+            first = self.k_shadow is None
+            self.k_shadow = (self.k_shadow or 70) + r.randint(1, 3)
+            self.write_shadow()
+            self.ops.append(["add-file-that-shadows-a-library-class" if first else "edit-file-that-shadows-a-library-class", self.k_shadow])
         elif k < 0.72:
             first = self.k_extra is None
             self.k_extra = (self.k_extra or 4) + r.randint(1, 3)
@@ -166,8 +192,9 @@ class World:
             self.ops.append(["option-change", "iterative_simplification", bool(self.opts.get("iterative_simplification"))])
         elif k < 0.84 and self.opts.get("expand_mx"):
             # differs from the cached options only in a value that is None by default
+            # (or in the value only: another regular expression, selecting another variable)
             cur = self.opts.get("eliminable_variable_expression")
-            self.opts["eliminable_variable_expression"] = None if cur else r"_\w+"
+            self.opts["eliminable_variable_expression"] = r.choice([v for v in (None, r"_\w+", r"_e\w+", r"_f\w+") if v != cur])
             self.ops.append(["option-change", "eliminable_variable_expression", self.opts["eliminable_variable_expression"]])
         elif k < 0.94:
             o = r.choice(OPTION_FLIPS)
@@ -192,7 +219,7 @@ class World:
 
     def poison_cache(self):
         import pickle
-        cf = os.path.join(self.mdir, "M.pymoca_cache")
+        cf = os.path.join(self.mdir, self.name + ".pymoca_cache")
         try:
             with open(cf, "rb") as f:
                 db = pickle.load(f)
@@ -214,20 +241,20 @@ class World:
         self.set_version()
         self.ops.append(["transfer", mode])
         opts = dict(self.opts, cache=True)
-        had_cache = os.path.exists(os.path.join(self.mdir, "M.pymoca_cache"))
+        had_cache = os.path.exists(os.path.join(self.mdir, self.name + ".pymoca_cache"))
         if had_cache and self.dirty_since_transfer:
             self.ctx.monitor("stale_situations_created")
         if self.mode == "codegen":
             # code-generated libraries: every step in a fresh process (dlopen caches shared objects by path)
-            had_cache = os.path.exists(os.path.join(self.mdir, "M.pymoca_cache"))
+            had_cache = os.path.exists(os.path.join(self.mdir, self.name + ".pymoca_cache"))
             r_ = c19.run_worker(self.mdir, dict(self.opts, codegen=True), self.version)
             if "exception" in r_:
                 try:
                     probe = os.path.join(self.root, "probe")
                     shutil.rmtree(probe, ignore_errors=True)
                     os.makedirs(probe)
-                    shutil.copy(os.path.join(self.mdir, "M.mo"), os.path.join(probe, "M.mo"))
-                    api.transfer_model(probe, "M", dict(self.opts))
+                    self.copy_sources(probe)
+                    api.transfer_model(probe, self.name, dict(self.opts))
                 except Exception as e2:
                     if type(e2).__name__ == r_["exception"]:
                         self.ctx.discard("sources-do-not-compile-under-these-options:" + r_["exception"])
@@ -236,6 +263,15 @@ class World:
                     shutil.rmtree(os.path.join(self.root, "probe"), ignore_errors=True)
                 return ("C20:codegen:transfer-raises:%s" % r_["exception"], "transfer_model(codegen) raised %s: %s" % (r_["exception"], r_.get("message")))
             sig = r_["signature"]
+            sig_reload = None
+            if r_.get("class") != "CachedModel":
+                # the call compiled and wrote cache file and libraries: what the next process loads from them is part
+                # of the history (a compile returns the model it compiled, not what it stored)
+                r2_ = c19.run_worker(self.mdir, dict(self.opts, codegen=True), self.version)
+                if "exception" in r2_:
+                    return ("C20:codegen:reload-raises:%s" % r2_["exception"], "transfer_model(codegen) right after a compiling call raised %s: %s" % (r2_["exception"], r2_.get("message")))
+                sig_reload = r2_["signature"]
+                self.ctx.cover("mode:codegen:reload-after-compile:" + r2_.get("class", "?"))
 
             class _G:
                 pass
@@ -244,8 +280,9 @@ class World:
             self.ctx.cover("mode:codegen")
         else:
             try:
-                got = api.transfer_model(self.mdir, "M", dict(opts))
+                got = api.transfer_model(self.mdir, self.name, dict(opts))
                 sig = cachecmp.signature(got)
+                sig_reload = None
             except Exception as e:
                 # a combination of options under which the sources do not compile at all (today: expand_vectors
                 # with iterative_simplification) is outside the property: ask the uncached compiler
@@ -253,8 +290,8 @@ class World:
                     probe = os.path.join(self.root, "probe")
                     shutil.rmtree(probe, ignore_errors=True)
                     os.makedirs(probe)
-                    shutil.copy(os.path.join(self.mdir, "M.mo"), os.path.join(probe, "M.mo"))
-                    api.transfer_model(probe, "M", dict(self.opts, expand_mx=True))
+                    self.copy_sources(probe)
+                    api.transfer_model(probe, self.name, dict(self.opts, expand_mx=True))
                 except Exception as e2:
                     if type(e2) is type(e):
                         self.ctx.discard("sources-do-not-compile-under-these-options:" + type(e).__name__)
@@ -271,9 +308,9 @@ class World:
         ref_dir = os.path.join(self.root, "ref")
         shutil.rmtree(ref_dir, ignore_errors=True)
         os.makedirs(ref_dir)
-        shutil.copy(os.path.join(self.mdir, "M.mo"), os.path.join(ref_dir, "M.mo"))
+        self.copy_sources(ref_dir)
         try:
-            ref = api.transfer_model(ref_dir, "M", dict(self.opts, expand_mx=True) if self.mode == "cache" else dict(self.opts))
+            ref = api.transfer_model(ref_dir, self.name, dict(self.opts, expand_mx=True) if self.mode == "cache" else dict(self.opts))
             sig_ref = cachecmp.signature(ref)
         except Exception as e:
             self.ctx.discard("reference-compile-fails:" + type(e).__name__)
@@ -282,6 +319,10 @@ class World:
             shutil.rmtree(ref_dir, ignore_errors=True)
         self.ctx.monitor("transfers_compared")
         d = cachecmp.first_difference(sig_ref, sig)
+        if not d and self.mode == "codegen" and sig_reload is not None:
+            d = cachecmp.first_difference(sig_ref, sig_reload)
+            if d:
+                d = "(model loaded by the next process) " + d
         last_change = next((o for o in reversed(self.ops[:-1]) if o[0] != "transfer"), ["none"])
         self.dirty_since_transfer = False
         if d:
@@ -322,8 +363,9 @@ def run_shard(ctx):
     for k in range(ctx.n(200, 8000)):
         if ctx.out_of_time():
             break
-        # one code-generation history per shard in quick (16 in total), more in thorough
-        mode = "codegen" if k < (1 if ctx.quick() else 10) else "cache"
+        # one code-generation history on some shards in quick, more in thorough
+        # (quick: shards 0-5 only; compiling four libraries per call leaves little of the budget for anything else)
+        mode = "codegen" if k < ((1 if ctx.shard < 6 else 0) if ctx.quick() else 10) else "cache"
         ctx.guarded(one, ctx, ctx.rng, k, mode, timeout=900)
 
 
